@@ -5,6 +5,8 @@ pub mod common;
 pub mod c02;
 pub mod c04;
 pub mod c09;
+pub mod c12;
+pub mod c17;
 pub mod c10;
 
 use crate::report::RunReport;
@@ -31,7 +33,15 @@ macro_rules! dispatch {
 }
 pub(crate) use dispatch;
 
-pub const CLAIMED: [&str; 4] = ["C02", "C04", "C09", "C10"];
+pub const CLAIMED: [&str; 6] = ["C02", "C04", "C09", "C10", "C12", "C17"];
+
+/// build profiles a property is checked under
+pub fn profiles(prop: &str) -> &'static [&'static str] {
+    match prop {
+        "C08" | "C12" => &["checked", "release"],
+        _ => &["checked"],
+    }
+}
 
 pub fn generate(prop: &str, seed: u64, index: u64, thorough: bool) -> Option<Scenario> {
     Some(match prop {
@@ -39,6 +49,8 @@ pub fn generate(prop: &str, seed: u64, index: u64, thorough: bool) -> Option<Sce
         "C04" => c04::generate(seed, index, thorough),
         "C09" => c09::generate(seed, index, thorough),
         "C10" => c10::generate(seed, index, thorough),
+        "C12" => c12::generate(seed, index, thorough),
+        "C17" => c17::generate(seed, index, thorough),
         _ => return None,
     })
 }
@@ -49,6 +61,8 @@ pub fn execute(sc: &Scenario) -> Option<RunReport> {
         "C04" => c04::execute(sc),
         "C09" => c09::execute(sc),
         "C10" => c10::execute(sc),
+        "C12" => c12::execute(sc),
+        "C17" => c17::execute(sc),
         _ => return None,
     })
 }
@@ -62,6 +76,10 @@ pub fn default_runs(prop: &str, thorough: bool) -> u64 {
         ("C04", true) => 1_000_000,
         ("C09", false) => 600,
         ("C09", true) => 40_000,
+        ("C12", false) => 4_000,
+        ("C12", true) => 300_000,
+        ("C17", false) => 3_000,
+        ("C17", true) => 300_000,
         ("C10", false) => 6_000,
         ("C10", true) => 400_000,
         _ => 1000,
@@ -81,6 +99,8 @@ pub fn rule(prop: &str) -> &'static str {
         "C09" => "Each seeded run generates one scenario (build -> 0-4 caller-driven ops -> fit or fit_with_statistics -> recovery update and Jacobian). 75% of runs enumerate: the scenario is executed fault-free to learn its sequence of model calls, then EVERY call position is re-executed with a transient failure, a persistent failure (and 'fail after mutating' for set_params; wrong-length closure output for builder-made models; a burst at every 7th position); 25% of runs execute a seeded 2-3 fault plan (bursts, heals, persistent). evaluations counts scenario executions (each with a tap-twin execution when a fit is present). An execution is non-trivial only if a fault actually fired; distinct = distinct signatures (model kind, flavour, kind of the failing call, phase build/pre/fit/post, persistence, action, outcome of the fit).",
         "C02" => "Each seeded run generates one scenario (model, observations with 1-4 columns, mostly non-trivial weights incl. zeros/negatives/wide ranges, operation script of 2-20 caller-driven updates/queries/weighted-data reads/conversions, usually a fit; 40% of hand-written-model runs have 1-2 transient model failures between good updates) and executes it once; after every operation the residual identity r = vec(W.Y - (W.Phi_ref(alpha)).C) is evaluated element-wise within a forward-error bound at the alpha the problem reports, weighted data are compared with w*y, best_fit with Phi_ref(alpha_hat)*C_hat, params with the last vector the model acknowledged. A run is non-trivial only if at least one residual identity was evaluated with weights that are not all ones AND a residual norm above 1e-6*||W.Y||; distinct = distinct signatures (model kind, width, flavour, API, S, M, sequence of update/weighted-data/fit outcomes).",
         "C04" => "Each seeded run generates one scenario (model, data exact or noisy, start exact/near/mid/far, optimizer knob swarm: patience 1-100, zero/huge/epsilon tolerances, tiny step bound, no diagonal scaling; 15% with a failing model) and executes one fit (or fit_with_statistics) twice: through LevMarSolver::fit and through the same optimizer on a tap around a twin problem. Every run with a completed fit is non-trivial; distinct = distinct signatures (model kind, flavour, API, termination reason, accepted steps 0..6+, ended on a restored rejected step, width, Ok/Err).",
+        "C12" => "Each seeded run generates one scenario with N - (M+P) drawn from {-3..+3, large}, weights on/off, both widths, optimizer knob swarm incl. patience 1 (failing fits), and executes fit_with_statistics under BOTH build profiles (overflow checks on / off). 88% of runs enumerate: after a fault-free execution (with a tap twin that locates the end of the optimizer), EVERY model-call position of the statistics computation is re-executed with a transient and a persistent model failure; 12% execute a seeded mid-fit failure. evaluations counts scenario executions. Every execution with a completed call is non-trivial; distinct = distinct signatures (model kind, width, flavour, sign/size of N-(M+P) clamped to +-4, termination reason, Ok/Err, phase of the failure, weights).",
+        "C17" => "Each seeded run generates one builder-made model (random parameter lists, arities 0-3, shared parameters, invariant functions) and a history of 3-24 bare-model calls: set_params with lengths {P,0,P-1,P+1,2P}, eval, eval_partial_deriv(k) with k in {0..P-1,P,P+7,usize::MAX}; the history is executed fault-free and then once for EVERY (closure, wrong length in {0,N-1,N+1,2N}) pair, the closure returning that length at a seeded call index. The reference model is the last accepted parameter vector. An execution is non-trivial only if a wrong-length output was actually returned or a wrong-length parameter vector was applied; distinct = distinct signatures (width, M, P, function/derivative closure, empty/shorter/longer, outcome sequence).",
         _ => "",
     }
 }
